@@ -1,0 +1,12 @@
+//go:build verif
+
+package base58
+
+// Ghost lemma function for the deductive verifier in /verif: ordinary Go, compiled only with the
+// verif build tag and never called. govc executes it symbolically (the argument is arbitrary) with
+// Encode and Decode replaced by their contracts and proves the assertion attached to it in
+// contracts_verif.go: Decode(Encode(b)) == b for every byte string.
+func lemmaDecodeEncode(b []byte) []byte {
+	s := Encode(b)
+	return Decode(s)
+}
